@@ -22,7 +22,7 @@ ASSUMPTIONS = ['flow sizes are multiples of the MSS (512)', 'completion is deman
                'every transmission']
 PROBES = ['sub_blackhole', 'second_connection', 'deadline_after_last_segment', 'synchronous_path', 'real_path', 'tail_drop_on_path', 'sub_sink', 'sub_e2e', 'sub_clean', 'rto_fired', 'fast_retransmit', 'ack_lost', 'data_lost', 'duplicate_delivered',
           'overtaken', 'cc_cubic', 'completed', 'inconclusive', 'first_segment_missing', 'sink_duplicate', 'sink_gap',
-          'clean_precondition_held', 'flow_without_a_full_segment', 'flow_without_finish_time']
+          'clean_precondition_held', 'flow_without_a_full_segment', 'flow_without_finish_time', 'sink_recording_options']
 
 
 def gen(rng, tier):
@@ -85,6 +85,10 @@ def gen(rng, tier):
     if rng.random() < 0.08:
         # the flow's finish_time passes right after the last new segment went out: repairs must go on
         case['deadline'] = rng.choice([0.001, 0.01, 0.5])
+    if rng.random() < 0.2:
+        # the sink's recording switches (what it keeps for statistics, whether it narrates) must not touch the protocol
+        case['sink_opts'] = [rng.random() < 0.5, rng.random() < 0.5, rng.random() < 0.5, rng.random() < 0.7,
+                             rng.random() < 0.5]
     if rng.random() < 0.05:
         # a flow without a single full segment: size 0, or less than one MSS - nothing may be sent, nothing invented
         case['segments'] = 0
@@ -226,7 +230,12 @@ def run_e2e(w, case):
     n = case.get('segments', 1)
     size = n * MSS
     clean = case['sub'] == 'clean'
-    sink = TCPSink(env)
+    so = case.get('sink_opts')
+    if so:
+        stats['sink_recording_options'] = 1
+        sink = TCPSink(env, rec_arrivals=so[0], absolute_arrivals=so[1], rec_waits=so[2], rec_flow_ids=so[3], debug=so[4])
+    else:
+        sink = TCPSink(env)
     fd = {} if clean else case.get('faults_data', {})
     fa = {} if clean else case.get('faults_ack', {})
     path = case.get('path')
